@@ -2682,6 +2682,15 @@ again:
 		return 0UL;
 	}
 
+	if (UNLIKELY(rr->scale != SCALE_GREGORIAN &&
+		     echs_nul_instant_p(
+			     echs_instant_detach_scale(
+				     echs_instant_rescale(strm->seed, rr->scale))))) {
+		/* the rule's calendar doesn't reach there */
+		strm->seed = strm->e.from = echs_nul_instant();
+		return strm->ncch = 0UL;
+	}
+
 	/* fill up with the proto instant */
 	for (size_t j = 0U; j < GRP_CCH_OFF; j++) {
 		strm->cch[j] = strm->seed;
